@@ -287,10 +287,13 @@ def _judge_actor(case: dict[str, Any], log: list[Any], rec: Any) -> None:
     exits = {e["run"]: e for e in runs if e["ev"] == "exit"}
     # an explicit start() takes effect only on a non-running actor; it accounts for exactly one enter
     explicit_runs: set[int] = set()
+    pos = {id(e): i for i, e in enumerate(log)}
     for c in calls:
         if c["what"] == "start" and not c["running_before"]:
             for e in enters:
-                if abs(e["t"] - c["t"]) < 1e-9 and e["run"] not in explicit_runs:
+                # (the enter it causes comes after the call in the log: a policy restart that entered and ended at
+                # the same instant just before the call is not this start's run)
+                if abs(e["t"] - c["t"]) < 1e-9 and e["run"] not in explicit_runs and pos[id(e)] > pos[id(c)]:
                     explicit_runs.add(e["run"])
                     break
     restarts_in_this_start = 0
